@@ -3940,7 +3940,10 @@ CComplex FPProc::BlockIntegral(const int inttype)
                     break;
 
                 case 4: // Resistive Losses
-                    sig=1.e06/Re(1./blocklist[meshelem[i].lbl].o);
+                    // a region without conductivity dissipates nothing (1./o would be 0/0)
+                    sig=0;
+                    if (blocklist[meshelem[i].lbl].o!=0)
+                        sig=1.e06/Re(1./blocklist[meshelem[i].lbl].o);
                     if((blockproplist[meshelem[i].blk].Lam_d!=0) &&
                             (blockproplist[meshelem[i].blk].LamType==0)) sig=0;
                     if(sig!=0)
